@@ -178,7 +178,16 @@ func init() {
 		return p.e.ts.BV(64, 3)
 	}
 	externals[ml+"GetHealthScore"] = func(p *Path, fr *frame, a []Value) Value { return p.e.ts.BV(64, 0) }
-	externals[ml+"UpdateNode"] = func(p *Path, fr *frame, a []Value) Value { return Iface{} }
+	externals[ml+"UpdateNode"] = func(p *Path, fr *frame, a []Value) Value {
+		p.logs["ml.UpdateNode"] = append(p.logs["ml.UpdateNode"], p.e.ts.True)
+		if _, on := p.ghost["mlFaults"]; on {
+			e := p.newInput("ml.UpdateNode.err", BoolSort)
+			if p.Branch(e) {
+				return p.errorValue(p.e.strOf("memberlist UpdateNode failed (stub)"))
+			}
+		}
+		return Iface{}
+	}
 
 	intrinsics["vfTime"] = func(p *Path, fr *frame, a []Value) Value {
 		t := p.newInput(concStr(a[0]), BVSort(64))
@@ -482,5 +491,17 @@ func init() {
 		}
 		*out.V.(Ptr) = deepCopy(tok.val, map[Ptr]Ptr{})
 		return p.e.ts.True
+	}
+}
+
+func init() {
+	// vfMlFaults: memberlist.UpdateNode may fail from now on
+	intrinsics["vfMlFaults"] = func(p *Path, fr *frame, a []Value) Value { p.ghost["mlFaults"] = true; return nil }
+	// vfOpaqueBytes(name): a byte slice of arbitrary symbolic length in [0, 2^24] whose content is never inspected
+	intrinsics["vfOpaqueBytes"] = func(p *Path, fr *frame, a []Value) Value {
+		ts := p.e.ts
+		l := p.newInput(concStr(a[0]), BVSort(64))
+		p.assumeQuiet(ts.And(ts.BVCmp("bvsge", l, ts.BV(64, 0)), ts.BVCmp("bvsle", l, ts.BV(64, 1<<24))))
+		return &OpaqueBytes{length: l, tok: -1}
 	}
 }
